@@ -89,7 +89,7 @@ def psimod():
     rows = []
     for t in _terms(os.path.join(DATA, "psi-mod.obo")):
         i = t["id"][0]
-        if not i.startswith("MOD:"):
+        if not i.startswith("MOD:") or t.get("is_obsolete", ["false"])[0] == "true":
             continue
         rows.append({"db": "psimod", "id": i.split(":")[1], "name": t["name"][0],
                      "mono": _f(_xref(t, "DiffMono")), "avg": _f(_xref(t, "DiffAvg")),
@@ -101,7 +101,7 @@ def xlmod():
     rows = []
     for t in _terms(os.path.join(DATA, "xlmod.obo")):
         i = t["id"][0]
-        if not i.startswith("XLMOD:"):
+        if not i.startswith("XLMOD:") or t.get("is_obsolete", ["false"])[0] == "true":
             continue
         mono = None
         for pv in t.get("property_value", []):
